@@ -65,6 +65,12 @@ struct Workload {
     /// before the threads start (bounded caches, eviction, rehashing)
     #[serde(default)]
     prefill: usize,
+    /// quiescent tail: after all threads have joined, that many further distinct trivial
+    /// configurations are built through the cache and every configuration of the workload is built
+    /// again, each compared with its uncached twin (damage done by a race that only shows once the
+    /// cache evicts, rehashes or recycles: "once the threads are gone, requests are still served")
+    #[serde(default)]
+    postfill: usize,
 }
 
 fn to_modes(cfg: &Config) -> Vec<ScannerMode> {
@@ -240,7 +246,8 @@ fn gen_workload(seed: u64, idx: u64) -> Workload {
         threads.push(script);
     }
     let prefill = if flavour == 2 || rng.chance(1, 10) { *rng.pick(&[7usize, 31, 127, 129, 255]) } else { 0 };
-    Workload { configs, failing, inputs, shared_cfg, threads, prefill }
+    let postfill = if flavour == 2 || rng.chance(1, 8) { *rng.pick(&[9usize, 40, 70, 130, 270]) } else { 0 };
+    Workload { configs, failing, inputs, shared_cfg, threads, prefill, postfill }
 }
 
 fn trivial_config(i: usize) -> Config {
@@ -337,6 +344,7 @@ fn peek_then_scan(sc: &Scanner, input: &str, n: usize) -> Vec<Tok> {
 static INTERLEAVINGS: Mutex<BTreeSet<u64>> = Mutex::new(BTreeSet::new());
 static EXECUTIONS: std::sync::atomic::AtomicU64 = std::sync::atomic::AtomicU64::new(0);
 static HITS_MISSES: Mutex<(u64, u64, u64)> = Mutex::new((0, 0, 0));
+static POSTFILL_RUNS: std::sync::atomic::AtomicU64 = std::sync::atomic::AtomicU64::new(0);
 
 fn fnv(h: &mut u64, x: u64) {
     for b in x.to_le_bytes() {
@@ -391,6 +399,23 @@ fn scenario(w: Arc<Workload>, exp: Arc<Vec<Vec<Res>>>, widx: u64) {
     for (ti, h) in handles.into_iter().enumerate() {
         let got = h.join().expect("thread panicked");
         assert_eq!(got, exp[ti], "C14 result mismatch: workload {} thread {}: concurrent results differ from the sequential ones", widx, ti);
+    }
+    // quiescent tail (no concurrency any more): the cache must still serve every request correctly
+    if w.postfill > 0 {
+        for i in 0..w.postfill {
+            let id = 5000 + i;
+            let sc = ScannerBuilder::new().add_scanner_modes(&to_modes(&trivial_config(id))).build().expect("C14 quiescent tail: trivial configuration builds through the cache");
+            let un = ScannerBuilder::new().add_scanner_modes(&to_modes(&trivial_config(id))).build_uncached().expect("trivial configuration builds");
+            assert_eq!(scan(&sc, "aaaaa aa", 0, None), scan(&un, "aaaaa aa", 0, None), "C14 result mismatch: workload {} quiescent tail, fresh configuration {}", widx, id);
+        }
+        for (ci, c) in w.configs.iter().enumerate() {
+            let sc = ScannerBuilder::new().add_scanner_modes(&to_modes(c)).build().expect("C14 quiescent tail: workload configuration builds through the cache");
+            let un = ScannerBuilder::new().add_scanner_modes(&to_modes(c)).build_uncached().expect("workload configuration builds");
+            for input in w.inputs.iter() {
+                assert_eq!(scan(&sc, input, 0, None), scan(&un, input, 0, None), "C14 result mismatch: workload {} quiescent tail, configuration {}", widx, ci);
+            }
+        }
+        POSTFILL_RUNS.fetch_add(1, std::sync::atomic::Ordering::Relaxed);
     }
     let mut h = 0xcbf29ce484222325u64;
     fnv(&mut h, widx);
@@ -558,6 +583,7 @@ fn main() {
             let rep = serde_json::json!({
                 "workloads": workloads,
                 "cache_pressure_workloads": pressure,
+                "quiescent_tail_executions": POSTFILL_RUNS.load(std::sync::atomic::Ordering::Relaxed),
                 "executions": EXECUTIONS.load(std::sync::atomic::Ordering::Relaxed),
                 "distinct_interleavings": INTERLEAVINGS.lock().unwrap().len(),
                 "cache_hits": hm.0, "cache_misses": hm.1, "failing_builds": hm.2,
